@@ -27,6 +27,10 @@ class ToolError(Exception):
     pass
 
 
+class HarnessPanic(Exception):
+    """a driver died of a panic of the code under test; the violation is already recorded"""
+
+
 def log(msg):
     print(msg, flush=True)
 
@@ -154,6 +158,13 @@ class Check:
     def harness(self, args, timeout=600, check=True):
         p = subprocess.run([VH] + [str(a) for a in args], stdout=subprocess.PIPE,
                            stderr=subprocess.PIPE, text=True, timeout=timeout)
+        if check and p.returncode == 3:
+            # the code under test panicked where the driver did not expect it: an observation
+            msg = next((ln for ln in p.stdout.splitlines() if ln.startswith("UNGUARDED-PANIC")), "")
+            self.violation(f"panic:{args[0]}",
+                           f"the code under test panicked inside harness driver `{args[0]}`: {msg[:600]}",
+                           {"kind": "unguarded-panic", "args": [str(a) for a in args], "detail": msg})
+            raise HarnessPanic(args[0])
         if check and p.returncode != 0:
             raise ToolError(f"harness {' '.join(map(str, args))} exited {p.returncode}: "
                             f"{p.stderr[-2000:]}")
